@@ -79,6 +79,17 @@ Fixpoint cumsum_from (acc : Z) (l : list Z) : list Z :=
   end.
 Definition np_cumsum (l : list Z) : list Z := cumsum_from 0 l.
 
+(* np.broadcast_arrays(first, second) for two index vectors, read as the list of the (row, col) pairs they select:
+   equally long vectors element by element, a one-entry vector against every entry of the other;
+   None = ValueError (shape mismatch) *)
+Definition np_broadcast_pairs (first second : list Z) : option (list (Z * Z)) :=
+  if Nat.eqb (length first) (length second) then Some (combine first second)
+  else match first, second with
+       | _, [c] => Some (map (fun r => (r, c)) first)
+       | [r], _ => Some (map (fun c => (r, c)) second)
+       | _, _ => None
+       end.
+
 (* ------------------------------------------------------------------ 3. per-element skeletons *)
 (* _handle_negative_indices followed by the bound test and the offset of _convert_from_2d, for one
    (row, col) pair of the (broadcast) index vectors:
